@@ -4,6 +4,7 @@ import itertools
 from hypothesis import strategies as st
 
 from vlib.core import call_twice, Part, Violation, Discard, call
+from vlib import forms
 from vlib.models import TableGrader
 
 from mitxgraders import (StringGrader, FormulaGrader, NumericalGrader, MatrixGrader, SingleListGrader, ListGrader)
@@ -136,7 +137,7 @@ def make(kind, opts, answers=None, wrong=''):
         kw['answers'] = answers
     if wrong:
         kw['wrong_msg'] = wrong
-    return CLASSES[kind](**kw)
+    return forms.make(CLASSES[kind], kw, [kind, opts, answers, wrong])     # keyword or one-dictionary spelling
 
 
 def answer_of(alt, rot=0):
